@@ -252,7 +252,15 @@ def run_cases(cases, result, sample_every=None, batch=4000):
     flush()
 
 
+SCALE = [1]
+REPLAY_MODE = [None]
+
+
 def write_replay(prop, n, payload):
+    if REPLAY_MODE[0]:
+        return REPLAY_MODE[0]          # the case that was asked for is its own replay
+    if SCALE[0] != 1 and "scale" not in payload:
+        payload = dict(payload, scale=SCALE[0])
     os.makedirs(REPLAYS, exist_ok=True)
     path = os.path.join(REPLAYS, "%s-%d.json" % (prop, n))
     with open(path, "w") as f:
@@ -279,13 +287,20 @@ def main(mod, argv):
     prop = mod.ID
     os.makedirs(EVID, exist_ok=True)
     evid_path = os.path.join(EVID, "%s.json" % prop)
-    if os.path.exists(evid_path):
-        os.remove(evid_path)
-    # stale replays of this property
-    if os.path.isdir(REPLAYS):
-        for fn in os.listdir(REPLAYS):
-            if fn.startswith(prop + "-"):
-                os.remove(os.path.join(REPLAYS, fn))
+    rp_payload = None
+    if args.replay:
+        # re-running one recorded case: read it first, leave evidence and the recorded replays alone
+        rp_payload = json.load(open(args.replay))
+        REPLAY_MODE[0] = os.path.relpath(os.path.abspath(args.replay), VERIF)
+        os.environ["VERIF_NO_EVIDENCE"] = "1"
+    else:
+        if os.path.exists(evid_path):
+            os.remove(evid_path)
+        # stale replays of this property
+        if os.path.isdir(REPLAYS):
+            for fn in os.listdir(REPLAYS):
+                if fn.startswith(prop + "-"):
+                    os.remove(os.path.join(REPLAYS, fn))
 
     broken = []          # proof / audit / build problems (not violations by themselves)
     notes = []
@@ -342,13 +357,15 @@ def main(mod, argv):
 
     # 3. correspondence + predicate on implementation output
     result = Result()
-    scale = 1
+    # VERIF_SCALE multiplies every random-case budget of the tier (soak runs); replays remember it
+    scale = max(1, int(os.environ.get("VERIF_SCALE", "1") or "1"))
+    SCALE[0] = scale
     if args.replay:
-        rp = json.load(open(args.replay))
+        rp = rp_payload
         seed = rp.get("seed", seed)
         tier = rp.get("tier", tier)
         want = rp.get("case_index")
-        gen = ((i, c) for (i, c) in mod.gen(seed, tier, 1) if want is None or i == want)
+        gen = ((i, c) for (i, c) in mod.gen(seed, tier, rp.get("scale", 1)) if want is None or i == want)
         run_cases(gen, result)
     else:
         run_cases(mod.gen(seed, tier, scale), result)
@@ -386,6 +403,7 @@ def main(mod, argv):
         searched = sres.evaluations
         for (c, l, got) in sres.pred_fail:
             if attribute(c, l, got) is None:
+                c.origin = (seed + 7919, 6)          # where the replay has to look for this case
                 violations.append(("pred", c, l, got))
 
     exit_code = 0
@@ -401,10 +419,11 @@ def main(mod, argv):
                 continue
             seen.add(sig)
             replay_n += 1
+            rseed, rscale = getattr(c, "origin", (seed, scale))
             path = write_replay(prop, replay_n, {
-                "property": prop, "seed": seed, "tier": tier, "case_index": c.index, "group": c.group,
+                "property": prop, "seed": rseed, "scale": rscale, "tier": tier, "case_index": c.index, "group": c.group,
                 "input": c.desc, "failing_line": l.text(), "predicate_result": got, "note": l.note,
-                "rerun": "VERIF_SEED=%d checks/run.py %s --replay <this file>" % (seed, prop)})
+                "rerun": "checks/run.py %s --replay <this file>" % prop})
             printed.append("VIOLATION property=%s replay=%s" % (prop, path))
             if replay_n >= 5:
                 break
